@@ -148,9 +148,9 @@ def run_faultconc(idx, tier, sub_seed):
         lay = runner.layout
         # quick: the full one-preemption sweep for the publishing steps (renames) only; thorough: for every fault site
         focus = (lambda desc: str(desc).startswith("rename:")) if tier == "quick" else None
-        for ob, _hyg, wk, k in C.explore_with_faults(runner, rng, 1, 4 if tier == "quick" else 30,
+        for ob, _hyg, wk, k in C.explore_with_faults(runner, rng, 1, 4 if tier == "quick" else 10,
                                                      rng.choice([errno.EIO, errno.ENOSPC, errno.EACCES]),
-                                                     dfs_cap=160 if tier == "quick" else 400, site_filter=focus, persistent=True):
+                                                     dfs_cap=160 if tier == "quick" else 150, site_filter=focus, persistent=True):
             if ob.deadlock or ob.hang or ob.harness_errors:
                 res.foreign["did-not-complete"] = res.foreign.get("did-not-complete", 0) + 1
                 continue
